@@ -54,14 +54,15 @@ def run(c):
                         c.nontrivial.add((json.dumps(r["rc"]), r["fwd"], r["nt"], r["mode"]))
             c.judge(res, "level-scheduled sweep", sigfn=sig, stage="schedule")
         # ---- code: digests across thread counts
-        t = c.record(rd, [], env={"OMP_NUM_THREADS": 1}, out=c.path("det.ndjson"), timeout=900)
-        res = c.tlc_trace("C09Trace", t, label="determinism")
-        for ln in res["lines"][:3]:
-            c.sample(ln, limit=8)
-        for ln in res["lines"]:
-            if '"k":"det"' in ln:
-                c.nontrivial.add(("det", json.loads(ln)["name"]))
         def dsig(rec, clauses):
             return {"item": rec.get("name"), "via_product": rec.get("via_product"), "small_spread": rec.get("spread", 10**9) <= 64}
-        c.judge(res, "result depends on the thread count", sigfn=dsig, stage="determinism")
+        for order in ("asc", "desc"):
+            t = c.record(rd, [], env={"OMP_NUM_THREADS": 1, "VERIF_ORDER": order}, out=c.path("det-%s.ndjson" % order), timeout=1500)
+            res = c.tlc_trace("C09Trace", t, label="determinism/" + order)
+            for ln in res["lines"][:2]:
+                c.sample(ln, limit=8)
+            for ln in res["lines"]:
+                if '"k":"det"' in ln:
+                    c.nontrivial.add(("det", order, json.loads(ln)["name"]))
+            c.judge(res, "result depends on the thread count", sigfn=dsig, stage="determinism")
     c.parallel([models, code])
